@@ -39,6 +39,7 @@ ASSUMPTIONS = [
 
 BASE_TEXTS = ['one line', 'two\nlines\n', 'dos\r\nlines\r\n', 'no final\nnl',
               ' lead\n', 'x']
+UNI_TEXTS_EXTRA = ['\u3000\u0a20x\n\u0a85\u2000y\n', '\u4e00\u0a0a \r\n\u0a85\u3000\r\n']
 UNI_TEXTS = ['\ufeffbom first\n', '\u00e9\n', '\u00e9', '\u0a0d\n\u0a00',
              'first\n\ufeffbom starts second line\n',
              'dos\r\n\ufeffbom starts second line\r\n\ufeff\r\n']
@@ -46,7 +47,7 @@ UNI_TEXTS = ['\ufeffbom first\n', '\u00e9\n', '\u00e9', '\u0a0d\n\u0a00',
 
 def texts_for(codec):
     out = list(BASE_TEXTS)
-    for t in UNI_TEXTS:
+    for t in UNI_TEXTS + UNI_TEXTS_EXTRA:
         if codecs_cat.encodable(t, codec):
             out.append(t)
     return [texts.restrict(t, codec) for t in out]
@@ -164,6 +165,30 @@ def check_doc(doc, obs, case):
         obs.violation('reader_misreads:%s' % d[0], case, d[1])
     elif d is not None:
         obs.count('reader_diff_follows_writer_diff')
+    # a text diff in the spelled codec is analysed whatever the spelling
+    if data == want and d is None:
+        sp = case['spelling']
+        le = case.get('line_endings')
+        try:
+            from pydiffx.dom import DiffX
+            t = DiffX.from_bytes(data)
+            nl = '\r\n' if le == 'dos' else '\n'
+            hunk = nl.join(['--- a', '+++ b', '@@ -1,2 +1,2 @@', ' c',
+                            '-old', '+new', ''])
+            fs = t.changes[0].add_file(meta={'path': 'x'},
+                                       diff=hunk.encode(sp),
+                                       diff_encoding=sp)
+            if le:
+                fs.diff_line_endings = le
+            fs.generate_stats()
+            st = fs.meta.get('stats', {})
+            obs.count('stats_on_spelled_codec')
+            if (st.get('insertions'), st.get('deletions')) != (1, 1):
+                obs.violation('statistics_depend_on_codec_or_spelling', case,
+                              {'stats': st})
+        except Exception as e:
+            obs.violation('statistics_raised:%s' % common.exc_mechanism(e),
+                          case, repr(e)[:200])
 
 
 def run(ctx):
